@@ -159,6 +159,9 @@ func (s *Session) handlerOp(r *rpcState, a *actor, st Step) {
 			err = r.hdec(m)
 		}
 		f := errFields(tr.E{}, err)
+		if isDecodeErr(err) {
+			f["cls"] = "garbled"
+		}
 		if err == nil {
 			id := Identify(m, r.n, "c", r.gotS)
 			r.gotS++
